@@ -332,8 +332,7 @@ class Scheduler:
                 self._switch(nxt)
                 return
             deadlines = [t.deadline for t in self.threads if t.state == BLOCKED and t.deadline is not None]
-            dt = None if not deadlines else max(0.0, min(deadlines) - w.now)
-            if not w.advance(dt):
+            if not w.advance(None, until=max(w.now, min(deadlines)) if deadlines else None):
                 blocked = [(t.name, t.what) for t in self.threads if t.state == BLOCKED]
                 exc = Deadlock(f"all simulated threads are blocked and no event is pending at t={w.now}: {blocked}")
                 if w.fatal is None:
